@@ -11,168 +11,168 @@ package influxql
 //@   props C19
 //@   safety C19 C13
 //@   frameprops C14 C17
-//@   modifies fresh
+//@   modifies @ast
 //@   ensures result1 == nil && len(result0) >= 1 && result0[0].Admin
 
 //@ func (*DropUserStatement).RequiredPrivileges
 //@   props C19
 //@   safety C19 C13
 //@   frameprops C14 C17
-//@   modifies fresh
+//@   modifies @ast
 //@   ensures result1 == nil && len(result0) >= 1 && result0[0].Admin
 
 //@ func (*GrantStatement).RequiredPrivileges
 //@   props C19
 //@   safety C19 C13
 //@   frameprops C14 C17
-//@   modifies fresh
+//@   modifies @ast
 //@   ensures result1 == nil && len(result0) >= 1 && result0[0].Admin
 
 //@ func (*GrantAdminStatement).RequiredPrivileges
 //@   props C19
 //@   safety C19 C13
 //@   frameprops C14 C17
-//@   modifies fresh
+//@   modifies @ast
 //@   ensures result1 == nil && len(result0) >= 1 && result0[0].Admin
 
 //@ func (*RevokeStatement).RequiredPrivileges
 //@   props C19
 //@   safety C19 C13
 //@   frameprops C14 C17
-//@   modifies fresh
+//@   modifies @ast
 //@   ensures result1 == nil && len(result0) >= 1 && result0[0].Admin
 
 //@ func (*RevokeAdminStatement).RequiredPrivileges
 //@   props C19
 //@   safety C19 C13
 //@   frameprops C14 C17
-//@   modifies fresh
+//@   modifies @ast
 //@   ensures result1 == nil && len(result0) >= 1 && result0[0].Admin
 
 //@ func (*SetPasswordUserStatement).RequiredPrivileges
 //@   props C19
 //@   safety C19 C13
 //@   frameprops C14 C17
-//@   modifies fresh
+//@   modifies @ast
 //@   ensures result1 == nil && len(result0) >= 1 && result0[0].Admin
 
 //@ func (*CreateDatabaseStatement).RequiredPrivileges
 //@   props C19
 //@   safety C19 C13
 //@   frameprops C14 C17
-//@   modifies fresh
+//@   modifies @ast
 //@   ensures result1 == nil && len(result0) >= 1 && result0[0].Admin
 
 //@ func (*DropDatabaseStatement).RequiredPrivileges
 //@   props C19
 //@   safety C19 C13
 //@   frameprops C14 C17
-//@   modifies fresh
+//@   modifies @ast
 //@   ensures result1 == nil && len(result0) >= 1 && result0[0].Admin
 
 //@ func (*CreateRetentionPolicyStatement).RequiredPrivileges
 //@   props C19
 //@   safety C19 C13
 //@   frameprops C14 C17
-//@   modifies fresh
+//@   modifies @ast
 //@   ensures result1 == nil && len(result0) >= 1 && result0[0].Admin
 
 //@ func (*AlterRetentionPolicyStatement).RequiredPrivileges
 //@   props C19
 //@   safety C19 C13
 //@   frameprops C14 C17
-//@   modifies fresh
+//@   modifies @ast
 //@   ensures result1 == nil && len(result0) >= 1 && result0[0].Admin
 
 //@ func (*CreateSubscriptionStatement).RequiredPrivileges
 //@   props C19
 //@   safety C19 C13
 //@   frameprops C14 C17
-//@   modifies fresh
+//@   modifies @ast
 //@   ensures result1 == nil && len(result0) >= 1 && result0[0].Admin
 
 //@ func (*DropSubscriptionStatement).RequiredPrivileges
 //@   props C19
 //@   safety C19 C13
 //@   frameprops C14 C17
-//@   modifies fresh
+//@   modifies @ast
 //@   ensures result1 == nil && len(result0) >= 1 && result0[0].Admin
 
 //@ func (*DropShardStatement).RequiredPrivileges
 //@   props C19
 //@   safety C19 C13
 //@   frameprops C14 C17
-//@   modifies fresh
+//@   modifies @ast
 //@   ensures result1 == nil && len(result0) >= 1 && result0[0].Admin
 
 //@ func (*DropMeasurementStatement).RequiredPrivileges
 //@   props C19
 //@   safety C19 C13
 //@   frameprops C14 C17
-//@   modifies fresh
+//@   modifies @ast
 //@   ensures result1 == nil && len(result0) >= 1 && result0[0].Admin
 
 //@ func (*KillQueryStatement).RequiredPrivileges
 //@   props C19
 //@   safety C19 C13
 //@   frameprops C14 C17
-//@   modifies fresh
+//@   modifies @ast
 //@   ensures result1 == nil && len(result0) >= 1 && result0[0].Admin
 
 //@ func (*ShowUsersStatement).RequiredPrivileges
 //@   props C19
 //@   safety C19 C13
 //@   frameprops C14 C17
-//@   modifies fresh
+//@   modifies @ast
 //@   ensures result1 == nil && len(result0) >= 1 && result0[0].Admin
 
 //@ func (*ShowGrantsForUserStatement).RequiredPrivileges
 //@   props C19
 //@   safety C19 C13
 //@   frameprops C14 C17
-//@   modifies fresh
+//@   modifies @ast
 //@   ensures result1 == nil && len(result0) >= 1 && result0[0].Admin
 
 //@ func (*ShowShardsStatement).RequiredPrivileges
 //@   props C19
 //@   safety C19 C13
 //@   frameprops C14 C17
-//@   modifies fresh
+//@   modifies @ast
 //@   ensures result1 == nil && len(result0) >= 1 && result0[0].Admin
 
 //@ func (*ShowShardGroupsStatement).RequiredPrivileges
 //@   props C19
 //@   safety C19 C13
 //@   frameprops C14 C17
-//@   modifies fresh
+//@   modifies @ast
 //@   ensures result1 == nil && len(result0) >= 1 && result0[0].Admin
 
 //@ func (*ShowStatsStatement).RequiredPrivileges
 //@   props C19
 //@   safety C19 C13
 //@   frameprops C14 C17
-//@   modifies fresh
+//@   modifies @ast
 //@   ensures result1 == nil && len(result0) >= 1 && result0[0].Admin
 
 //@ func (*ShowDiagnosticsStatement).RequiredPrivileges
 //@   props C19
 //@   safety C19 C13
 //@   frameprops C14 C17
-//@   modifies fresh
+//@   modifies @ast
 //@   ensures result1 == nil && len(result0) >= 1 && result0[0].Admin
 
 //@ func (*ShowSubscriptionsStatement).RequiredPrivileges
 //@   props C19
 //@   safety C19 C13
 //@   frameprops C14 C17
-//@   modifies fresh
+//@   modifies @ast
 //@   ensures result1 == nil && len(result0) >= 1 && result0[0].Admin
 
 //@ func (*DropRetentionPolicyStatement).RequiredPrivileges
 //@   props C19
 //@   safety C19 C13
 //@   frameprops C14 C17
-//@   modifies fresh
+//@   modifies @ast
 //@   requires s != nil
 //@   ensures result1 == nil && len(result0) == 1 && !result0[0].Admin && result0[0].Name == s.Database && result0[0].Privilege == WritePrivilege
 
@@ -180,7 +180,7 @@ package influxql
 //@   props C19
 //@   safety C19 C13
 //@   frameprops C14 C17
-//@   modifies fresh
+//@   modifies @ast
 //@   requires s != nil
 //@   ensures result1 == nil && len(result0) == 1 && !result0[0].Admin && result0[0].Name == s.Database && result0[0].Privilege == WritePrivilege
 
@@ -188,7 +188,7 @@ package influxql
 //@   props C19
 //@   safety C19 C13
 //@   frameprops C14 C17
-//@   modifies fresh
+//@   modifies @ast
 //@   requires s != nil
 //@   ensures result1 == nil && len(result0) == 1 && !result0[0].Admin && result0[0].Name == s.Database && result0[0].Privilege == ReadPrivilege
 
@@ -196,7 +196,7 @@ package influxql
 //@   props C19
 //@   safety C19 C13
 //@   frameprops C14 C17
-//@   modifies fresh
+//@   modifies @ast
 //@   requires s != nil
 //@   ensures result1 == nil && len(result0) == 1 && !result0[0].Admin && result0[0].Name == s.Database && result0[0].Privilege == ReadPrivilege
 
@@ -204,7 +204,7 @@ package influxql
 //@   props C19
 //@   safety C19 C13
 //@   frameprops C14 C17
-//@   modifies fresh
+//@   modifies @ast
 //@   requires s != nil
 //@   ensures result1 == nil && len(result0) == 1 && !result0[0].Admin && result0[0].Name == s.Database && result0[0].Privilege == ReadPrivilege
 
@@ -212,7 +212,7 @@ package influxql
 //@   props C19
 //@   safety C19 C13
 //@   frameprops C14 C17
-//@   modifies fresh
+//@   modifies @ast
 //@   requires s != nil
 //@   ensures result1 == nil && len(result0) == 1 && !result0[0].Admin && result0[0].Name == s.Database && result0[0].Privilege == ReadPrivilege
 
@@ -220,7 +220,7 @@ package influxql
 //@   props C19
 //@   safety C19 C13
 //@   frameprops C14 C17
-//@   modifies fresh
+//@   modifies @ast
 //@   requires s != nil
 //@   ensures result1 == nil && len(result0) == 1 && !result0[0].Admin && result0[0].Name == s.Database && result0[0].Privilege == ReadPrivilege
 
@@ -228,7 +228,7 @@ package influxql
 //@   props C19
 //@   safety C19 C13
 //@   frameprops C14 C17
-//@   modifies fresh
+//@   modifies @ast
 //@   requires s != nil
 //@   ensures result1 == nil && len(result0) == 1 && !result0[0].Admin && result0[0].Name == s.Database && result0[0].Privilege == ReadPrivilege
 
@@ -236,42 +236,42 @@ package influxql
 //@   props C19
 //@   safety C19 C13
 //@   frameprops C14 C17
-//@   modifies fresh
+//@   modifies @ast
 //@   ensures result1 == nil && len(result0) == 1 && !result0[0].Admin && result0[0].Name == "" && result0[0].Privilege == WritePrivilege
 
 //@ func (DropSeriesStatement).RequiredPrivileges
 //@   props C19
 //@   safety C19 C13
 //@   frameprops C14 C17
-//@   modifies fresh
+//@   modifies @ast
 //@   ensures result1 == nil && len(result0) == 1 && !result0[0].Admin && result0[0].Name == "" && result0[0].Privilege == WritePrivilege
 
 //@ func (DeleteSeriesStatement).RequiredPrivileges
 //@   props C19
 //@   safety C19 C13
 //@   frameprops C14 C17
-//@   modifies fresh
+//@   modifies @ast
 //@   ensures result1 == nil && len(result0) == 1 && !result0[0].Admin && result0[0].Name == "" && result0[0].Privilege == WritePrivilege
 
 //@ func (*ShowContinuousQueriesStatement).RequiredPrivileges
 //@   props C19
 //@   safety C19 C13
 //@   frameprops C14 C17
-//@   modifies fresh
+//@   modifies @ast
 //@   ensures result1 == nil && len(result0) == 1 && !result0[0].Admin && result0[0].Name == "" && result0[0].Privilege == ReadPrivilege
 
 //@ func (*ShowQueriesStatement).RequiredPrivileges
 //@   props C19
 //@   safety C19 C13
 //@   frameprops C14 C17
-//@   modifies fresh
+//@   modifies @ast
 //@   ensures result1 == nil && len(result0) == 1 && !result0[0].Admin && result0[0].Name == "" && result0[0].Privilege == ReadPrivilege
 
 //@ func (*ShowDatabasesStatement).RequiredPrivileges
 //@   props C19
 //@   safety C19 C13
 //@   frameprops C14 C17
-//@   modifies fresh
+//@   modifies @ast
 //@   ensures result1 == nil && len(result0) == 1 && !result0[0].Admin && result0[0].Name == "" && result0[0].Privilege == NoPrivileges
 
 //@ func (*ShowSeriesCardinalityStatement).RequiredPrivileges
@@ -317,7 +317,7 @@ package influxql
 //@   props C19
 //@   safety C19 C13
 //@   frameprops C14 C17
-//@   modifies fresh
+//@   modifies @ast
 //@   ensures fresh(result0)
 //@   ensures result1 == nil && len(a) >= 1 ==> len(result0) >= 1
 //@   loop 1 invariant -1 <= rangeindex && rangeindex < len(a) && (rangeindex >= 0 ==> len(ep) >= 1) && len(ep) >= 0 && fresh(ep)
@@ -331,7 +331,7 @@ package influxql
 //@   props C19
 //@   safety C19 C13
 //@   frameprops C14 C17
-//@   modifies fresh
+//@   modifies @ast
 //@   ensures fresh(result0)
 //@   requires s != nil
 //@   ensures result1 == nil && s.Target != nil ==> len(result0) >= 1 && result0[len(result0)-1].Name == s.Target.Measurement.Database && result0[len(result0)-1].Privilege == WritePrivilege && !result0[len(result0)-1].Admin
